@@ -298,7 +298,7 @@ AlgebraItems(ev) ==
       W == IntMat(InnerW(g))
       inner == VDot(a, MVec(W, b))
       sq == VDot(a, MVec(W, a))
-  IN << Item("hat", IF Len(ev.hat) = N THEN MRatioMilli(DM(ev.hat), MBlock(H, 1, 1, N, N), tm(N, N, s1)) ELSE 2000000000),
+  IN << Item("hat", IF Len(ev.hat) = N THEN MRatioMilli(DM(ev.hat), AlgView(g, H), tm(N, N, s1)) ELSE 2000000000),
         Item("vee", VRatio(DV(ev.vee), a, [i \in 1..n |-> FAdd(FMul(wp, s1), FloorOf(ev))])),
         Item("br", VRatio(DV(ev.br), BracketV(g, a, b), [i \in 1..n |-> FAdd(FMul(wp, FMulInt(FMul(s1, s2), 8)), FloorOf(ev))])),
         Item("inner", VRatio(<<D(ev.inner)>>, <<inner>>, <<FAdd(FMul(wp, FMulInt(FMul(s1, s2), 64)), FloorOf(ev))>>)),
@@ -313,11 +313,42 @@ GeneratorItems(ev) ==
   IN IF ~inRange THEN << Item("raises", IF ev.exc = "invalid_argument" THEN 0 ELSE 2000000000) >>
      ELSE IF ~Has(ev, "rm") THEN << Item("raises", 2000000000) >>
      ELSE << Item("gen", IF Len(ev.rm) = N
-                         THEN MRatioMilli(DM(ev.rm), MBlock(Gen(g, i + 1), 1, 1, N, N), [r \in 1..N |-> [c \in 1..N |-> FloorOf(ev)]])
+                         THEN MRatioMilli(DM(ev.rm), AlgView(g, Gen(g, i + 1)), [r \in 1..N |-> [c \in 1..N |-> FloorOf(ev)]])
                          ELSE 2000000000) >>
 
+\* ---- Bundle = direct product (C11)
+\* static offset tables are the prefix sums of the element sizes; element<i>() aliases the i-th segment
+PrefixSums(Op(_), parts) == [i \in 1..Len(parts) |-> Off(Op, parts, i)]
+LayoutItems(ev) ==
+  LET g == ev.g  P == g.parts
+      eq(a, b) == IF a = b THEN 0 ELSE 2000000000
+  IN << Item("DimIdx", eq(ev.DimIdx, PrefixSums(Dim, P))), Item("DoFIdx", eq(ev.DoFIdx, PrefixSums(DoF, P))),
+        Item("RepIdx", eq(ev.RepIdx, PrefixSums(Rep, P))), Item("TraIdx", eq(ev.TraIdx, PrefixSums(MatN, P))),
+        Item("AlgIdx", eq(ev.AlgIdx, PrefixSums(AlgN, P))),
+        Item("sizes", eq(<<ev.Dim, ev.DoF, ev.Rep, ev.Tra, ev.Alg>>, <<Dim(g), DoF(g), Rep(g), MatN(g), AlgN(g)>>)),
+        Item("elem_off", eq(ev.elem_off, PrefixSums(Rep, P))), Item("telem_off", eq(ev.telem_off, PrefixSums(DoF, P))) >>
+\* each Bundle operation returns exactly what the element operations return, placed at the offsets
+BelemItems(ev) ==
+  LET same(f, h) == IF ev[f] = ev[h] THEN 0 ELSE 2000000000
+  IN << Item("compose", same("compose", "e_compose")), Item("inverse", same("inverse", "e_inverse")),
+        Item("between", same("between", "e_between")), Item("log", same("log", "e_log")), Item("exp", same("exp", "e_exp")),
+        Item("rplus", same("rplus", "e_rplus")), Item("lminus", same("lminus", "e_lminus")) >>
+\* Jacobians of a bundle are block diagonal with EXACT zeros outside the element blocks
+OffBlockZero(g, m, RowOp(_), ColOp(_)) ==
+  \A i \in 1..Len(m) : \A j \in 1..Len(m[1]) :
+     PartOf(RowOp, g.parts, i, 1) = PartOf(ColOp, g.parts, j, 1) \/ D(m[i][j]) = Z
+SquareJ == {"Ja", "Jb", "Jc", "Jd", "Jt", "J", "Jr", "Jl", "Jri", "Jli", "sadj", "JlJri"}
+BundleZeroItems(ev) ==
+  IF ev.g.k # "Bundle" THEN << >>
+  ELSE LET g == ev.g
+           sq == \A f \in SquareJ \cap DOMAIN ev : (ev.e = "act" /\ f = "Ja") \/ OffBlockZero(g, ev[f], DoF, DoF)
+           actOK == (ev.e # "act" \/ ~Has(ev, "Ja")) \/ (OffBlockZero(g, ev.Ja, Dim, DoF) /\ OffBlockZero(g, ev.Jp, Dim, Dim))
+       IN << Item("offblock_zero", IF sq /\ actOK THEN 0 ELSE 2000000000) >>
+
 Items(ev) ==
-  CASE ev.e = "compose"   -> ComposeItems(ev)
+  CASE ev.e = "layout"    -> LayoutItems(ev)
+    [] ev.e = "belem"     -> BelemItems(ev)
+    [] ev.e = "compose"   -> ComposeItems(ev)
     [] ev.e = "inverse"   -> InverseItems(ev)
     [] ev.e = "act"       -> ActItems(ev)
     [] ev.e = "identity"  -> IdentityItems(ev)
@@ -362,7 +393,7 @@ GapClass(ev) ==
   ELSE LET th == Theta(ev.g, t) IN
        IF FLt(FInt(2), th) /\ FLe(th, Pi) THEN FLog2(FSub(Pi, th)) ELSE 99999
 
-Verdict(ev) == IF AllFinite(ev) THEN Items(ev) ELSE BadFinite
+Verdict(ev) == IF AllFinite(ev) THEN Items(ev) \o BundleZeroItems(ev) ELSE BadFinite
 
 -----------------------------------------------------------------------------
 VARIABLE l
